@@ -2,7 +2,7 @@
    ([+-]P[nW][nD][T[nH][nM][n[(.|,)f]S]], ChronoSpec.df_render / df_wf) To(string) -> duration returns the count of
    the denoted duration (fraction rounded half to even) when it is representable, out_of_range otherwise. *)
 From BS Require Import Base ChronoSpec ChronoModel ChronoArith ChronoDecimal ChronoSafe ChronoSafeAdd ChronoText ChronoTp
-  ChronoTpParse ChronoTpRt ChronoDur ChronoDurPrint ChronoDurParse ChronoClassify ChronoClassify2 ChronoReject.
+  ChronoTpParse ChronoTpRt ChronoTs ChronoDur ChronoDurPrint ChronoDurParse ChronoClassify ChronoClassify2 ChronoReject.
 From Coq Require Import ZifyBool ZifyN ZifyNat.
 Local Open Scope Z_scope.
 Ltac Zify.zify_post_hook ::= Z.to_euclidean_division_equations.
@@ -37,7 +37,7 @@ Proof.
   intros HX. unfold simple_ratio. destruct P, HX as [->|[->|[->|[->| ->]]]]; vm_compute; auto.
 Qed.
 
-Lemma cast_unit_spec P R srcR X val : rep2 R -> (srcR = I64 \/ srcR = U64) -> unit5 X -> fits srcR val = true ->
+Lemma cast_unit_spec P R srcR X val : rep4 R -> (srcR = I64 \/ srcR = U64) -> unit5 X -> fits srcR val = true ->
   safe_cast (mkD srcR X 1) (pty P R) val = comp_val P R val X.
 Proof.
   intros HR Hsrc HX Hv. unfold comp_val.
@@ -46,7 +46,7 @@ Proof.
   set (x := val * (X * pden P)).
   pose proof (Z.div_mod x (pnum P) ltac:(lia)) as Hdm. pose proof (Z.mod_pos_bound x (pnum P) Hpn) as Hmb.
   assert (H1 : rep4 srcR) by (destruct Hsrc as [-> | ->]; unfold rep4; auto).
-  assert (H2 : rep4 R) by (destruct HR as [-> | ->]; unfold rep4; auto).
+  pose proof HR as H2.
   assert (H3 : wf_dty (mkD srcR X 1)) by (split; cbn; lia).
   assert (H4 : wf_dty (pty P R)) by (split; cbn; lia).
   assert (H5 : d_num (mkD srcR X 1) * d_den (pty P R) <= 4611686018427387904) by (cbn [pty d_num d_den]; nia).
@@ -64,16 +64,19 @@ Proof.
     replace x with (v * pnum P) by (unfold x; lia). apply Z.mod_mul. lia.
 Qed.
 
-Lemma sad_cadd P R dur t : rep2 R -> fits R dur = true -> fits R t = true ->
+Lemma sad_cadd4 P R dur t : rep4 R -> fits R dur = true -> fits R t = true ->
   safe_add_dur (pty P R) dur (pty P R) t = cadd R dur t.
 Proof.
   intros HR Hd Ht. destruct (prec_facts P) as (Hpn & Hpd & _). unfold cadd.
   rewrite safe_add_dur_spec; try assumption.
   - destruct (Z.eqb_spec t 0) as [->|E]; [rewrite Z.add_0_r, Hd; reflexivity|].
     rewrite safe_cast_same. reflexivity.
-  - unfold pty, rep4. cbn [d_rep]. destruct HR as [-> | ->]; auto.
   - unfold pty, wf_dty. cbn; lia.
 Qed.
+
+Lemma sad_cadd P R dur t : rep2 R -> fits R dur = true -> fits R t = true ->
+  safe_add_dur (pty P R) dur (pty P R) t = cadd R dur t.
+Proof. intros HR. apply sad_cadd4. destruct HR as [-> | ->]; unfold rep4; auto. Qed.
 
 Lemma comp_val_fits P R sv X t : comp_val P R sv X = Ok t -> fits R t = true.
 Proof.
@@ -88,7 +91,7 @@ Definition signed (neg : bool) (v : Z) : Z := if neg then - v else v.
 
 (* one component without fraction *)
 Lemma pnp_plain_spec P R ds sym X rest isDate neg dur :
-  rep2 R -> letter_of sym isDate X -> all_digits ds = true -> ds <> [] -> mag_ok neg (dec_value ds) = true ->
+  rep4 R -> letter_of sym isDate X -> all_digits ds = true -> ds <> [] -> mag_ok neg (dec_value ds) = true ->
   fits R dur = true ->
   parse_next_part (pty P R) (ds ++ sym :: rest) isDate neg dur =
   (t <- comp_val P R (signed neg (dec_value ds)) X ;; d' <- cadd R dur t ;; Ok (rest, d')).
@@ -108,7 +111,7 @@ Proof.
   { intros srcR val Hs Hf. rewrite (transform_letter P R srcR val sym isDate X Hsym).
     rewrite (cast_unit_spec P R srcR X val HR Hs HX Hf).
     destruct (comp_val P R val X) as [t| | |] eqn:Et; cbn [bind]; try reflexivity.
-    rewrite (sad_cadd P R dur t HR Hd (comp_val_fits _ _ _ _ _ Et)). reflexivity. }
+    rewrite (sad_cadd4 P R dur t HR Hd (comp_val_fits _ _ _ _ _ Et)). reflexivity. }
   unfold mag_ok, signed in *. destruct neg.
   - replace (v <=? 9223372036854775808) with true by lia.
     assert (Env : (if v =? 9223372036854775808 then Ok (tmin I64) else arith I64 (- cast I64 v)) = Ok (- v)).
@@ -158,9 +161,33 @@ Proof.
   destruct neg, P; cbn [tick_ns pnum pden]; rewrite ?Z.div_1_r, ?Z.mod_1_r; split_ifs; repeat split; intros; try discriminate; lia.
 Qed.
 
+(* the representations of the duration theorems: int64 / int32, and uint64 for texts without a minus sign (a minus sign
+   into an unsigned target is refused before anything is read) *)
+Definition repd (R : ity) (neg : bool) : Prop := rep2 R \/ (R = U64 /\ neg = false).
+
+Lemma repd_rep4 R neg : repd R neg -> rep4 R.
+Proof. intros [[-> | ->]|[-> _]]; unfold rep4; auto. Qed.
+
+Lemma repd_zero R neg : repd R neg -> fits R 0 = true.
+Proof. intros [[-> | ->]|[-> _]]; reflexivity. Qed.
+
+Lemma repd_round P R neg fns : repd R neg -> 0 <= fns <= 999999999 ->
+  dround NsT (pty P R) (signed neg fns) = Ok (round_half_even (signed neg fns) (tick_ns P)) /\
+  fits R (round_half_even (signed neg fns) (tick_ns P)) = true.
+Proof.
+  intros HR Hfns. destruct (rhe_bounds_signed P neg fns Hfns) as (Hrb & Hneg & Hpos & _).
+  destruct (prec_facts P) as (_ & _ & _ & _ & Hbd & _).
+  split.
+  - apply dround_rep3.
+    + destruct HR as [[-> | ->]|[-> _]]; unfold rep3; auto.
+    + unfold signed. destruct neg; lia.
+    + intros E. destruct HR as [[H | H]|[_ ->]]; [rewrite E in H; discriminate | rewrite E in H; discriminate|]. unfold signed. lia.
+  - apply fits_iff. destruct HR as [[-> | ->]|[-> Hn]]; unfold tmin, tmax, half, modulus; cbn [is_signed]; lia.
+Qed.
+
 (* the seconds component with a fraction *)
 Lemma pnp_frac_spec P R ds sep fs rest neg dur :
-  rep2 R -> all_digits ds = true -> ds <> [] -> mag_ok neg (dec_value ds) = true ->
+  repd R neg -> all_digits ds = true -> ds <> [] -> mag_ok neg (dec_value ds) = true ->
   (sep = c_dot \/ sep = c_comma) -> all_digits fs = true -> flen_ok fs ->
   fits R dur = true ->
   parse_next_part (pty P R) (ds ++ sep :: fs ++ c_S :: rest) false neg dur =
@@ -184,19 +211,15 @@ Proof.
   assert (Esns : (if neg then arith I64 (- fns) else Ok fns) = Ok (signed neg fns)).
   { unfold signed. destruct neg; [rewrite arith_fits by (apply fits_I64; lia)|]; reflexivity. }
   rewrite Esns, bind_ok.
-  destruct (rhe_bounds_signed P neg fns Hfns) as (Hrb & _).
-  rewrite dround_ns by (try exact HR; unfold signed; destruct neg; lia).
-  rewrite bind_ok.
+  destruct (repd_round P R neg fns HR Hfns) as (Edr & Hfr).
+  rewrite Edr, bind_ok.
   set (r := round_half_even (signed neg fns) (tick_ns P)) in *.
-  assert (Hfr : fits R r = true).
-  { apply fits_iff. destruct (prec_facts P) as (_ & _ & _ & _ & Hbd & _).
-    destruct HR as [-> | ->]; unfold tmin, tmax, half; cbn [is_signed]; lia. }
-  rewrite (sad_cadd P R dur r HR Hd Hfr).
+  rewrite (sad_cadd4 P R dur r (repd_rep4 R neg HR) Hd Hfr).
   destruct (cadd R dur r) as [d1| | |] eqn:E1; cbn [bind]; try reflexivity.
   cbv beta iota. cbn [fst snd].
   pose proof (cadd_fits _ _ _ _ E1) as Hd1.
   assert (Hsym : letter_of c_S false 1) by (right; unfold unit_of; right; right; right; auto).
-  pose proof (pnp_plain_spec P R ds c_S 1 rest false neg d1 HR Hsym Hdig Hne Hmag Hd1) as Hp.
+  pose proof (pnp_plain_spec P R ds c_S 1 rest false neg d1 (repd_rep4 R neg HR) Hsym Hdig Hne Hmag Hd1) as Hp.
   unfold parse_next_part in Hp.
   destruct (hd_digit ds (c_S :: rest) Hdig Hne) as (c1 & t1 & E1' & Hc1). rewrite E1', Hc1, <- E1' in Hp.
   rewrite from_chars_numeral in Hp; [| exact Hdig | exact Hne | reflexivity].
@@ -223,7 +246,7 @@ Proof.
 Qed.
 
 Lemma pnp_frac_oor P R ds sep fs rest neg dur :
-  rep2 R -> all_digits ds = true -> ds <> [] -> mag_ok neg (dec_value ds) = false ->
+  repd R neg -> all_digits ds = true -> ds <> [] -> mag_ok neg (dec_value ds) = false ->
   (sep = c_dot \/ sep = c_comma) -> all_digits fs = true -> flen_ok fs ->
   fits R dur = true ->
   parse_next_part (pty P R) (ds ++ sep :: fs ++ c_S :: rest) false neg dur = Err OutOfRange.
@@ -241,15 +264,13 @@ Proof.
   replace ((sep =? c_dot)%N || (sep =? c_comma)%N) with true by (destruct Hsep as [-> | ->]; reflexivity).
   rewrite (psf_gen fs (c_S :: rest)); [| exact Hfd | reflexivity | exact Hfl].
   replace ((c_S =? c_S)%N) with true by reflexivity. rewrite bind_ok. cbn [fst snd]. fold fns.
-  apply fits_U64 in Ef. unfold mag_ok in Hmag. destruct neg; [|lia].
+  apply fits_U64 in Ef. unfold mag_ok in Hmag.
+  destruct (repd_round P R neg fns HR Hfns) as (Edr & Hfr). pose proof (repd_rep4 R neg HR) as HR4.
+  destruct neg; [|lia]. unfold signed in Edr, Hfr.
   rewrite arith_fits by (apply fits_I64; lia). rewrite bind_ok.
-  rewrite dround_ns by (try exact HR; lia). rewrite bind_ok.
-  destruct (rhe_bounds_signed P true fns Hfns) as (Hrb & _). unfold signed in Hrb.
+  rewrite Edr, bind_ok.
   set (r := round_half_even (- fns) (tick_ns P)) in *.
-  assert (Hfr : fits R r = true).
-  { apply fits_iff. destruct (prec_facts P) as (_ & _ & _ & _ & Hbd & _).
-    destruct HR as [-> | ->]; unfold tmin, tmax, half; cbn [is_signed]; lia. }
-  rewrite (sad_cadd P R dur r HR Hd Hfr).
+  rewrite (sad_cadd4 P R dur r HR4 Hd Hfr).
   unfold cadd. destruct (fits R (dur + r)); cbn [bind]; [|reflexivity].
   cbv beta iota. rewrite Hmag. reflexivity.
 Qed.
@@ -293,14 +314,14 @@ Proof.
     repeat split; try lia. unfold unit5. auto 10.
 Qed.
 
-Lemma pnp_item P R it rest isDate neg dur : rep2 R -> item_ok isDate it -> fits R dur = true ->
+Lemma pnp_item_d P R it rest isDate neg dur : repd R neg -> item_ok isDate it -> fits R dur = true ->
   parse_next_part (pty P R) (item_text it ++ rest) isDate neg dur = (d' <- item_step P R neg it dur ;; Ok (rest, d')).
 Proof.
   intros HR Hok Hd. unfold item_step.
   destruct it as [ds sym X | ds sep fs]; cbn [item_ok item_v item_x item_fns item_text] in *.
   - destruct Hok as (Hs & Hdig & Hne). rewrite <- app_assoc. cbn [app].
     destruct (mag_ok neg (dec_value ds)) eqn:Hm.
-    + rewrite (pnp_plain_spec P R ds sym X rest isDate neg dur HR Hs Hdig Hne Hm Hd).
+    + rewrite (pnp_plain_spec P R ds sym X rest isDate neg dur (repd_rep4 R neg HR) Hs Hdig Hne Hm Hd).
       rewrite rhe_zero. replace (cadd R dur 0) with (Ok dur) by (unfold cadd; rewrite Z.add_0_r, Hd; reflexivity). rewrite bind_ok.
       destruct (comp_val P R _ X); cbn [bind]; try reflexivity.
     + apply (pnp_plain_oor P R ds sym X); assumption.
@@ -313,6 +334,10 @@ Proof.
       destruct (comp_val P R _ 1); cbn [bind]; try reflexivity.
     + apply (pnp_frac_oor P R ds sep fs); assumption.
 Qed.
+
+Lemma pnp_item P R it rest isDate neg dur : rep2 R -> item_ok isDate it -> fits R dur = true ->
+  parse_next_part (pty P R) (item_text it ++ rest) isDate neg dur = (d' <- item_step P R neg it dur ;; Ok (rest, d')).
+Proof. intros HR. apply pnp_item_d. left. exact HR. Qed.
 
 (* ------------------------------------------------------------------ one component: value and failure *)
 
@@ -423,7 +448,7 @@ Proof.
   destruct (rhe_bounds_signed P neg (item_fns it) Hfns) as (_ & H1 & H2 & _). split; assumption.
 Qed.
 
-Lemma item_step_complete P R neg it dur isDate : rep2 R -> item_ok isDate it ->
+Lemma item_step_complete P R neg it dur isDate : fits R 0 = true -> item_ok isDate it ->
   mag_ok neg (item_v it) = true -> item_exact P it = true -> sgn_ok neg dur -> fits R dur = true ->
   fits R (dur + item_r P neg it + item_t P neg it) = true ->
   item_step P R neg it dur = Ok (dur + item_r P neg it + item_t P neg it).
@@ -433,7 +458,7 @@ Proof.
   assert (H1 : fits R (dur + item_r P neg it) = true) by (apply (sgn_between R neg dur _ (item_t P neg it)); assumption).
   unfold cadd at 1. rewrite H1, bind_ok.
   assert (H2 : fits R (item_t P neg it) = true).
-  { pose proof (fits_zero R HR) as H0.
+  { pose proof HR as H0.
     apply (fits_between R 0 _ (dur + item_r P neg it + item_t P neg it) H0 Hf).
     clear - Hsd Hsr Hst. unfold sgn_ok in *. destruct neg; [right | left]; intuition lia. }
   rewrite (comp_val_complete P R _ _ (item_t P neg it) Et H2), bind_ok.
@@ -513,7 +538,7 @@ Proof.
   clear - Et IH. lia.
 Qed.
 
-Lemma fold_complete P R neg its : rep2 R -> Forall item_any its -> forallb (item_fine P neg) its = true ->
+Lemma fold_complete P R neg its : fits R 0 = true -> Forall item_any its -> forallb (item_fine P neg) its = true ->
   forall dur, sgn_ok neg dur -> fits R dur = true -> fits R (dur + items_total P neg its) = true ->
   fold_items P R neg its dur = Ok (dur + items_total P neg its).
 Proof.
@@ -559,7 +584,7 @@ Qed.
 Definition cont (k : nat) (D : dty) (tl : list N) (isDate neg : bool) (d : Z) : outcome Z :=
   match tl with [] => Ok d | c :: _ => if is_space c then Ok d else dur_loop k D tl isDate neg d end.
 
-Lemma loop_items P R neg isDate tl its : rep2 R -> Forall (item_ok isDate) its -> its <> [] ->
+Lemma loop_items P R neg isDate tl its : repd R neg -> Forall (item_ok isDate) its -> its <> [] ->
   forall fuel dur, (length its <= fuel)%nat -> fits R dur = true ->
   dur_loop fuel (pty P R) (texts its ++ tl) isDate neg dur =
   (d <- fold_items P R neg its dur ;; cont (fuel - length its) (pty P R) tl isDate neg d).
@@ -569,7 +594,7 @@ Proof.
   rewrite <- app_assoc.
   destruct (item_text_head isDate it (texts r ++ tl) Hit) as (c & t & E & Hc).
   rewrite (loop_digit f _ _ isDate neg dur c t E Hc).
-  rewrite (pnp_item P R it (texts r ++ tl) isDate neg dur HR Hit Hd).
+  rewrite (pnp_item_d P R it (texts r ++ tl) isDate neg dur HR Hit Hd).
   destruct (item_step P R neg it dur) as [d1| | |] eqn:E1; cbn [bind]; try reflexivity.
   cbn [fst snd].
   assert (Hd1 : fits R d1 = true) by (destruct (item_step_sound P R neg it dur d1 isDate Hit E1) as (H & _); exact H).
@@ -674,7 +699,7 @@ Proof.
   rewrite app_length, E. cbn [length]. lia.
 Qed.
 
-Lemma dur_parse_items P R f : rep2 R -> df_wf f ->
+Lemma dur_parse_items P R f : repd R (df_neg f) -> df_wf f ->
   dur_parse P R (df_render f) = fold_items P R (df_neg f) (df_items f) 0.
 Proof.
   intros HR Hwf. destruct (items_ok f Hwf) as (Hdi & Hti).
@@ -697,7 +722,7 @@ Proof.
   assert (Hloop : forall fuel, (length body <= fuel)%nat ->
      dur_loop fuel (pty P R) body true (df_neg f) 0 = fold_items P R (df_neg f) (df_items f) 0).
   { intros fuel Hfu. unfold body in *. rewrite app_length in Hfu. unfold df_items. rewrite fold_app.
-    pose proof (fits_zero R HR) as H0.
+    pose proof (repd_zero R _ HR) as H0.
     destruct (time_items f) as [|ti tr] eqn:Et.
     - destruct Hne as [Hn|Hn]; [|congruence].
       rewrite (loop_items P R (df_neg f) true [] (date_items f) HR Hdi Hn fuel 0) by (cbn [length] in *; lia || exact H0).
@@ -720,11 +745,12 @@ Proof.
         rewrite (loop_items P R (df_neg f) false [] (time_items f) HR Hti Hnt (S fu) d1) by (lia || exact Hd1).
         destruct (fold_items P R (df_neg f) (time_items f) d1); reflexivity. }
   rewrite render_items. fold body. unfold dur_parse, dur_parse_fuel.
-  assert (Hsg : is_signed R = true) by (destruct HR as [-> | ->]; reflexivity).
   destruct (df_neg f) eqn:En; [|destruct (df_plus f) eqn:Ep].
   - cbn [app length]. replace (3 <=? S (S (length body)))%nat with true by (symmetry; apply Nat.leb_le; lia).
     replace ((c_minus =? c_minus)%N) with true by reflexivity. cbn [orb].
-    replace ((c_P =? c_P)%N) with true by reflexivity. rewrite Hsg. cbn [negb andb].
+    replace ((c_P =? c_P)%N) with true by reflexivity.
+    assert (Hsg : is_signed R = true) by (destruct HR as [[-> | ->]|[_ H]]; [reflexivity | reflexivity | discriminate H]).
+    rewrite Hsg. cbn [negb andb].
     apply Hloop. lia.
   - cbn [app length]. replace (3 <=? S (S (length body)))%nat with true by (symmetry; apply Nat.leb_le; lia).
     replace ((c_plus =? c_minus)%N) with false by reflexivity. replace ((c_plus =? c_plus)%N) with true by reflexivity. cbn [orb].
@@ -762,29 +788,29 @@ Proof.
 Qed.
 
 (* whatever the parser returns is the denoted count *)
-Lemma fold_denoted P R f d : rep2 R -> df_wf f -> fold_items P R (df_neg f) (df_items f) 0 = Ok d ->
+Lemma fold_denoted P R f d : fits R 0 = true -> df_wf f -> fold_items P R (df_neg f) (df_items f) 0 = Ok d ->
   fits R d = true /\ count_of P (sg (df_neg f) * df_secs f) (sg (df_neg f) * df_fns f) = Some d.
 Proof.
   intros HR Hwf Hf.
-  destruct (fold_sound P R (df_neg f) _ (df_items_any f Hwf) 0 d (fits_zero R HR) Hf) as (Hd & Eq).
+  destruct (fold_sound P R (df_neg f) _ (df_items_any f Hwf) 0 d HR Hf) as (Hd & Eq).
   split; [exact Hd|]. apply count_of_some.
   rewrite df_items_secs, df_items_r, signed_sg in Eq. clear - Eq. lia.
 Qed.
 
-Theorem dur_parse_sound P R f d : rep2 R -> df_wf f ->
+Theorem dur_parse_sound_d P R f d : repd R (df_neg f) -> df_wf f ->
   dur_parse P R (df_render f) = Ok d -> dur_expected P R f = Ok d.
 Proof.
   intros HR Hwf. rewrite (dur_parse_items P R f HR Hwf). intros Hf.
-  destruct (fold_denoted P R f d HR Hwf Hf) as (Hd & Ec). unfold dur_expected. rewrite Ec, Hd. reflexivity.
+  destruct (fold_denoted P R f d (repd_zero R _ HR) Hwf Hf) as (Hd & Ec). unfold dur_expected. rewrite Ec, Hd. reflexivity.
 Qed.
 
 (* value, or out_of_range: nothing else *)
-Theorem dur_classify_weak P R f : rep2 R -> df_wf f ->
+Theorem dur_classify_weak_d P R f : repd R (df_neg f) -> df_wf f ->
   dur_parse P R (df_render f) = dur_expected P R f \/ dur_parse P R (df_render f) = Err OutOfRange.
 Proof.
   intros HR Hwf.
   destruct (fold_okoor P R (df_neg f) (df_items f) 0) as [(d & Hd)|Hd]; rewrite <- (dur_parse_items P R f HR Hwf) in Hd.
-  - left. rewrite Hd. symmetry. apply dur_parse_sound; assumption.
+  - left. rewrite Hd. symmetry. apply dur_parse_sound_d; assumption.
   - right. exact Hd.
 Qed.
 
@@ -792,7 +818,7 @@ Qed.
    the target by itself, or whose digits exceed uint64 (2^63 after a minus sign) *)
 Definition dur_split (P : prec) (f : dur_fields) : bool := negb (forallb (item_fine P (df_neg f)) (df_items f)).
 
-Theorem dur_classify_grammar P R f : rep2 R -> df_wf f -> dur_split P f = false ->
+Theorem dur_classify_grammar_d P R f : repd R (df_neg f) -> df_wf f -> dur_split P f = false ->
   dur_parse P R (df_render f) = dur_expected P R f.
 Proof.
   intros HR Hwf Hcls. unfold dur_split in Hcls. apply negb_false_iff in Hcls.
@@ -807,11 +833,45 @@ Proof.
     assert (E : items_total P (df_neg f) (df_items f) = c).
     { apply (Z.mul_reg_r _ _ (pnum P)); [lia|]. clear - Et Ec. lia. }
     rewrite (dur_parse_items P R f HR Hwf).
-    rewrite (fold_complete P R (df_neg f) _ HR Hany Hcls 0 (sgn_zero _) (fits_zero R HR)); rewrite Z.add_0_l, E; [reflexivity | exact Efc].
-  - destruct (dur_classify_weak P R f HR Hwf) as [H|H]; [rewrite H, Ee; reflexivity|].
+    rewrite (fold_complete P R (df_neg f) _ (repd_zero R _ HR) Hany Hcls 0 (sgn_zero _) (repd_zero R _ HR)); rewrite Z.add_0_l, E; [reflexivity | exact Efc].
+  - destruct (dur_classify_weak_d P R f HR Hwf) as [H|H]; [rewrite H, Ee; reflexivity|].
     unfold dur_expected in Ee. destruct (count_of P _ _); [destruct (fits R z)|]; inversion Ee; subst; exact H.
   - unfold dur_expected in Ee. destruct (count_of P _ _); [destruct (fits R z)|]; discriminate.
   - unfold dur_expected in Ee. destruct (count_of P _ _); [destruct (fits R z)|]; discriminate.
+Qed.
+
+(* the int64 / int32 statements *)
+Theorem dur_parse_sound P R f d : rep2 R -> df_wf f ->
+  dur_parse P R (df_render f) = Ok d -> dur_expected P R f = Ok d.
+Proof. intros HR. apply dur_parse_sound_d. left. exact HR. Qed.
+
+Theorem dur_classify_weak P R f : rep2 R -> df_wf f ->
+  dur_parse P R (df_render f) = dur_expected P R f \/ dur_parse P R (df_render f) = Err OutOfRange.
+Proof. intros HR. apply dur_classify_weak_d. left. exact HR. Qed.
+
+Theorem dur_classify_grammar P R f : rep2 R -> df_wf f -> dur_split P f = false ->
+  dur_parse P R (df_render f) = dur_expected P R f.
+Proof. intros HR. apply dur_classify_grammar_d. left. exact HR. Qed.
+
+(* a minus sign into an unsigned target: refused at once (even "-PT0S", whose value zero is representable) *)
+Lemma dur_parse_neg_unsigned P R f : is_signed R = false -> df_wf f -> df_neg f = true ->
+  dur_parse P R (df_render f) = Err OutOfRange.
+Proof.
+  intros Hs Hwf Hn. destruct (items_ok f Hwf) as (Hdi & Hti).
+  pose proof (texts_length _ _ Hdi) as Hld. pose proof (texts_length _ _ Hti) as Hlt.
+  rewrite render_items, Hn. unfold dur_parse, dur_parse_fuel.
+  set (body := texts (date_items f) ++ match time_items f with [] => [] | _ => c_T :: texts (time_items f) end).
+  assert (Hbody : (1 <= length body)%nat).
+  { unfold body. rewrite app_length. destruct Hwf as (_ & _ & _ & _ & _ & _ & Hany).
+    rewrite time_present_items in Hany.
+    destruct (time_items f) as [|ti tr]; cbn [length]; [|lia].
+    assert (date_items f <> []).
+    { unfold date_items. destruct (df_w f); [discriminate|]. destruct (df_dd f); [discriminate|].
+      destruct Hany as [H|[H|H]]; congruence. }
+    destruct (date_items f); [congruence | cbn [length] in Hld; lia]. }
+  cbn [app length]. replace (3 <=? S (S (length body)))%nat with true by (symmetry; apply Nat.leb_le; lia).
+  replace ((c_minus =? c_minus)%N) with true by reflexivity. cbn [orb].
+  replace ((c_P =? c_P)%N) with true by reflexivity. rewrite Hs. reflexivity.
 Qed.
 
 (* for seconds and finer targets every component is a whole number of ticks: the class is the magnitude limit only *)
